@@ -739,18 +739,19 @@ Qed.
 Lemma sdispatch_complete d b :
   sdispatch V sdec d b = None <-> (forall t, In t (sallowed d) -> sdec t b = None).
 Proof.
-  destruct d; simpl; unfold try2, try1; split; intros H; try reflexivity; try (intros t []);
-    repeat match goal with
-           | |- context [sdec ?t b] => let E := fresh in destruct (sdec t b) eqn:E
-           | H : context [sdec ?t b] |- _ => let E := fresh in destruct (sdec t b) eqn:E
-           end; try discriminate; try reflexivity;
-    try (intros t' [<- | [<- | []]]; assumption); try (intros t' [<- | []]; assumption);
-    try (exfalso;
-         match goal with
-         | E : sdec ?t b = Some _ |- _ => specialize (H t); simpl in H; rewrite E in H;
-                                          (discriminate H || (assert (X : Some v = None) by (apply H; auto); discriminate X))
-         end).
+  split.
+  - intros H t Ht. destruct (sdec t b) as [v |] eqn:E; [| reflexivity]. exfalso.
+    destruct d; simpl in Ht, H; unfold try2, try1 in H; try contradiction;
+      repeat match type of H with
+             | context [sdec ?t0 b] => let E' := fresh "E" in destruct (sdec t0 b) eqn:E'
+             end; try discriminate;
+      repeat (destruct Ht as [<- | Ht]; [congruence |]); contradiction.
+  - intros H. destruct d; simpl in *; unfold try2, try1; try reflexivity;
+      repeat match goal with
+             | |- context [sdec ?t0 b] => rewrite (H t0) by (simpl; auto)
+             end; reflexivity.
 Qed.
+
 Lemma udispatch_complete d b :
   udispatch V udec d b = None <-> (forall t, In t (uallowed d) -> udec t b = None).
 Proof.
